@@ -553,5 +553,147 @@ theorem lexString_backslash_eof (q : Char) (hq : isQuote q) (fmt : Bool) (f : Na
     ∃ e, lexString q false fmt (f + 1) ⟨['\\'], loc⟩ work segs = .error e := by
   rcases hq with rfl | rfl <;> exact ⟨⟨loc.adv '\\'⟩, by simp [lexString, Scan.next]⟩
 
+/-! ### the bytes loop -/
+
+theorem lexBytes_close (q : Char) (f : Nat) (rest : List Char) (loc : Loc) (acc : List UInt8) :
+    lexBytes q (f + 1) ⟨q :: rest, loc⟩ acc = .ok (.bytesLit acc.reverse, ⟨rest, loc.adv q⟩) := by
+  simp [lexBytes, Scan.next]
+
+theorem lexBytes_eof (q : Char) (f : Nat) (loc : Loc) (acc : List UInt8) :
+    lexBytes q f ⟨[], loc⟩ acc = .error ⟨loc⟩ := by
+  cases f <;> rfl
+
+/-- A character written as itself stands for its UTF-8 bytes. -/
+theorem lexBytes_plain (q : Char) (f : Nat) (c : Char) (tail : List Char) (loc : Loc) (acc : List UInt8)
+    (h1 : c ≠ q) (h2 : c ≠ '\\') :
+    lexBytes q (f + 1) ⟨c :: tail, loc⟩ acc = lexBytes q f ⟨tail, loc.adv c⟩ ((utf8Bytes c).reverse ++ acc) := by
+  simp [lexBytes, Scan.next, h1, h2]
+
+def namedByte (name : Char) (b : UInt8) : Prop :=
+  (name = 'a' ∧ b = 7) ∨ (name = 'b' ∧ b = 8) ∨ (name = 'f' ∧ b = 12) ∨ (name = 'n' ∧ b = 10) ∨
+  (name = 'r' ∧ b = 13) ∨ (name = 't' ∧ b = 9) ∨ (name = 'v' ∧ b = 11) ∨ (name = '\\' ∧ b = 92) ∨
+  (name = '\'' ∧ b = 39) ∨ (name = '"' ∧ b = 34)
+
+theorem lexBytes_named (q : Char) (hq : isQuote q) (f : Nat) (name : Char) (b : UInt8) (tail : List Char)
+    (loc : Loc) (acc : List UInt8) (h : namedByte name b) :
+    lexBytes q (f + 1) ⟨'\\' :: name :: tail, loc⟩ acc =
+      lexBytes q f ⟨tail, (loc.adv '\\').adv name⟩ (b :: acc) := by
+  rcases hq with rfl | rfl <;>
+  rcases h with ⟨rfl, rfl⟩|⟨rfl, rfl⟩|⟨rfl, rfl⟩|⟨rfl, rfl⟩|⟨rfl, rfl⟩|⟨rfl, rfl⟩|⟨rfl, rfl⟩|⟨rfl, rfl⟩|⟨rfl, rfl⟩|⟨rfl, rfl⟩ <;>
+  rfl
+
+theorem lexBytes_hex_unfold (q : Char) (hq : isQuote q) (f : Nat) (x : Char) (body : List Char) (loc : Loc)
+    (acc : List UInt8) (hx : x = 'x' ∨ x = 'X') :
+    lexBytes q (f + 1) ⟨'\\' :: x :: body, loc⟩ acc =
+      match extractHexChar 2 ⟨body, (loc.adv '\\').adv x⟩ with
+      | .error er => .error er
+      | .ok (ch, s3) => lexBytes q f s3 (UInt8.ofNat ch.toNat :: acc) := by
+  rcases hq with rfl | rfl <;> rcases hx with rfl | rfl <;> rfl
+
+theorem lexBytes_hex (q : Char) (hq : isQuote q) (f : Nat) (x : Char) (hs tail : List Char) (loc : Loc)
+    (acc : List UInt8) (b : UInt8) (hx : x = 'x' ∨ x = 'X') (hn : hs.length = 2)
+    (hhs : ∀ c ∈ hs, (hexDigitVal c).isSome = true) (hv : spelled 16 hs = b.toNat) :
+    lexBytes q (f + 1) ⟨'\\' :: x :: (hs ++ tail), loc⟩ acc =
+      lexBytes q f ⟨tail, advAll loc ('\\' :: x :: hs)⟩ (b :: acc) := by
+  have hb : b.toNat < 256 := b.toNat_lt
+  have hvalid : b.toNat.isValidChar := Or.inl (by omega)
+  have hch : (Char.ofNat b.toNat).toNat = b.toNat := by
+    simp [Char.ofNat, hvalid, Char.ofNatAux, Char.toNat]
+  rw [lexBytes_hex_unfold q hq f x _ loc acc hx,
+    extractHexChar_ok 2 hs tail _ (Char.ofNat b.toNat) hn hhs (by rw [hv, hch])]
+  simp only [hch, UInt8.ofNat_toNat]
+  rfl
+
+theorem lexBytes_hex_short (q : Char) (hq : isQuote q) (f : Nat) (x : Char) (hs tail : List Char) (loc : Loc)
+    (acc : List UInt8) (hx : x = 'x' ∨ x = 'X') (hlt : hs.length < 2)
+    (hhs : ∀ c ∈ hs, (hexDigitVal c).isSome = true) (ht : ∀ c, tail.head? = some c → hexDigitVal c = none) :
+    ∃ e, lexBytes q (f + 1) ⟨'\\' :: x :: (hs ++ tail), loc⟩ acc = .error e := by
+  obtain ⟨e, he⟩ := extractHexChar_short hs 2 tail ((loc.adv '\\').adv x) hlt hhs ht
+  rw [lexBytes_hex_unfold q hq f x _ loc acc hx, he]
+  exact ⟨_, rfl⟩
+
+theorem lexBytes_oct_unfold (q : Char) (hq : isQuote q) (f : Nat) (d0 : Char) (body : List Char) (loc : Loc)
+    (acc : List UInt8) (h : isDigit d0 = true) :
+    lexBytes q (f + 1) ⟨'\\' :: d0 :: body, loc⟩ acc =
+      match octalVal d0 ⟨body, (loc.adv '\\').adv d0⟩ with
+      | .error er => .error er
+      | .ok (v, s3) => if v ≤ 255 then lexBytes q f s3 (UInt8.ofNat v :: acc) else .error ⟨s3.loc⟩ := by
+  rcases hq with rfl | rfl <;>
+  rcases isDigit_cases d0 h with rfl|rfl|rfl|rfl|rfl|rfl|rfl|rfl|rfl|rfl <;>
+  rfl
+
+theorem lexBytes_oct (q : Char) (hq : isQuote q) (f : Nat) (d0 d1 d2 : Char) (tail : List Char) (loc : Loc)
+    (acc : List UInt8) (b : UInt8)
+    (h0 : isOct d0 = true) (h1 : isOct d1 = true) (h2 : isOct d2 = true)
+    (hv : (d0.toNat - 48) * 64 + (d1.toNat - 48) * 8 + (d2.toNat - 48) = b.toNat) :
+    lexBytes q (f + 1) ⟨'\\' :: d0 :: d1 :: d2 :: tail, loc⟩ acc =
+      lexBytes q f ⟨tail, advAll loc ['\\', d0, d1, d2]⟩ (b :: acc) := by
+  have hb : b.toNat < 256 := b.toNat_lt
+  rw [lexBytes_oct_unfold q hq f d0 _ loc acc (isDigit_of_isOct d0 h0), octalVal_ok d0 d1 d2 tail _ h0 h1 h2]
+  have hle : b.toNat ≤ 255 := by omega
+  simp only [hv, hle, if_true, UInt8.ofNat_toNat]
+  rfl
+
+/-- An octal escape above 255 does not fit a byte. -/
+theorem lexBytes_oct_big (q : Char) (hq : isQuote q) (f : Nat) (d0 d1 d2 : Char) (tail : List Char) (loc : Loc)
+    (acc : List UInt8) (h0 : isOct d0 = true) (h1 : isOct d1 = true) (h2 : isOct d2 = true)
+    (hv : 255 < (d0.toNat - 48) * 64 + (d1.toNat - 48) * 8 + (d2.toNat - 48)) :
+    ∃ e, lexBytes q (f + 1) ⟨'\\' :: d0 :: d1 :: d2 :: tail, loc⟩ acc = .error e := by
+  rw [lexBytes_oct_unfold q hq f d0 _ loc acc (isDigit_of_isOct d0 h0), octalVal_ok d0 d1 d2 tail _ h0 h1 h2]
+  have : ¬ ((d0.toNat - 48) * 64 + (d1.toNat - 48) * 8 + (d2.toNat - 48) ≤ 255) := by omega
+  simp only [this, if_false]
+  exact ⟨_, rfl⟩
+
+theorem lexBytes_oct_bad (q : Char) (hq : isQuote q) (f : Nat) (d0 : Char) (body : List Char) (loc : Loc)
+    (acc : List UInt8) (hd : isDigit d0 = true)
+    (h : body.length < 2 ∨ ∃ d1 d2 t, body = d1 :: d2 :: t ∧ (isOct d0 && isOct d1 && isOct d2) = false) :
+    ∃ e, lexBytes q (f + 1) ⟨'\\' :: d0 :: body, loc⟩ acc = .error e := by
+  obtain ⟨e, he⟩ := octalVal_bad d0 body ((loc.adv '\\').adv d0) h
+  rw [lexBytes_oct_unfold q hq f d0 _ loc acc hd, he]
+  exact ⟨_, rfl⟩
+
+/-! ### how `lexToken` enters the literal scanners -/
+
+/-- The wrapper `lexToken` puts around a scanner result: the token's span starts where the token started. -/
+def finish (start : Loc) (r : Except LexErr (Tok × Scan)) : Except LexErr (Option (Tok × Span) × Scan) :=
+  match r with
+  | .error e => .error e
+  | .ok (t, s') => .ok (some (t, ⟨start, s'.loc⟩), s')
+
+theorem lexToken_digit (c : Char) (cs : List Char) (loc : Loc) (h : isDigit c = true) :
+    lexToken ⟨c :: cs, loc⟩ = finish loc (lexNumber [c] ⟨cs, loc.adv c⟩) := by
+  rw [lexToken_digit_start c cs loc h]; rfl
+
+theorem lexToken_quote (q : Char) (hq : isQuote q) (body : List Char) (loc : Loc) :
+    lexToken ⟨q :: body, loc⟩ =
+      finish loc (lexString q false false (body.length + 1) ⟨body, loc.adv q⟩ [] []) := by
+  rcases hq with rfl | rfl <;> rfl
+
+theorem lexToken_raw (q : Char) (hq : isQuote q) (body : List Char) (loc : Loc) :
+    lexToken ⟨'r' :: q :: body, loc⟩ =
+      finish loc (lexString q true false (body.length + 1) ⟨body, (loc.adv 'r').adv q⟩ [] []) := by
+  rcases hq with rfl | rfl <;> rfl
+
+theorem lexToken_fmt (q : Char) (hq : isQuote q) (body : List Char) (loc : Loc) :
+    lexToken ⟨'f' :: q :: body, loc⟩ =
+      finish loc (lexString q false true (body.length + 1) ⟨body, (loc.adv 'f').adv q⟩ [] []) := by
+  rcases hq with rfl | rfl <;> rfl
+
+theorem lexToken_bytes (q : Char) (hq : isQuote q) (body : List Char) (loc : Loc) :
+    lexToken ⟨'b' :: q :: body, loc⟩ =
+      finish loc (lexBytes q (body.length + 1) ⟨body, (loc.adv 'b').adv q⟩ []) := by
+  rcases hq with rfl | rfl <;> rfl
+
+theorem lexToken_eof (l : Loc) : lexToken ⟨[], l⟩ = .ok (none, ⟨[], l⟩) := rfl
+
+/-- A source text that is one token: what `tokenize` returns. -/
+theorem tokenize_single (src : Str) (t : Tok × Span) (l : Loc)
+    (h : lexToken ⟨src, ⟨0, 0⟩⟩ = .ok (some t, ⟨[], l⟩)) : tokenize src = .ok ⟨[t], l⟩ := by
+  simp [tokenize, tokenizeGo, h, lexToken_eof]
+
+theorem tokenize_error (src : Str) (e : LexErr)
+    (h : lexToken ⟨src, ⟨0, 0⟩⟩ = .error e) : tokenize src = .error e := by
+  simp [tokenize, tokenizeGo, h]
+
 end LexLit
 end Rscel
